@@ -152,8 +152,22 @@ def run_ops(rng, obs):
             obs.check(same_value(plain(gy), ybest, models[a].ulps * 3e-16), 'ops:min() is the record of least cost',
                       ops=ops[-5:], observed=plain(gy), expected=ybest)
         compare(obs, mons[a], models[a], 'after-op', ops)
+    from mystic import munge
+    class View(object):          # (x, y, id) triples as the munge helpers hand them back, in the shape compare() reads
+        def __init__(self, x, y, ids, k): self.x, self.y, self.id, self.k = x, y, ids, k
+        def __len__(self): return len(self.x)
     for j in range(nm):
         compare(obs, mons[j], models[j], 'final', ops)
+        # the trajectory helpers of mystic.munge give back the same records: read_monitor / read_trajectories read them out,
+        # write_monitor builds a monitor that holds them (cost scaling by k transparent)
+        rx, ry, rid = munge.read_monitor(mons[j], id=True)
+        compare(obs, View(rx, ry, rid, ks[j]), models[j], 'read_monitor', ops)
+        tx, ty = munge.read_trajectories(mons[j])
+        compare(obs, View(tx, ty, rid, ks[j]), models[j], 'read_trajectories', ops)
+        if not any(isinstance(r_[1], list) for r_ in models[j].recs) or all(isinstance(r_[1], list) for r_ in models[j].recs):
+            m2 = munge.write_monitor([list(v) for v in plain(rx)], plain(ry), id=list(rid), k=ks[j])
+            compare(obs, m2, models[j], 'write_monitor', ops)
+        compare(obs, mons[j], models[j], 'after the munge helpers', ops)
     obs.desc = {'ks': ks, 'dim': dim, 'ystyle': ystyle, 'ops': ops}
     obs.nontrivial = combined_diff_k
     obs.notes = {'final_lengths': [len(m) for m in models_len(models)]}
